@@ -201,6 +201,13 @@ def polling(ctx, res: Result, hist, recursive, kind, spelling, second_kind=None)
     check_events(kind, evs, bytes if kind == "bytes" else str, expected, meta, res, "polling")
 
 
+SELF_SIMILAR = [["op", "mkdir", ["R", "a"]], ["op", "mkdir", ["R", "a", "R"]], ["op", "mkdir", ["R", "a", "R", "b2"]],
+                ["op", "touch", ["R", "a", "R", "b2", "f"]], ["op", "mkdir", ["R", "a", "R", "b"]],
+                ["op", "touch", ["R", "a", "R", "b", "g"]], ["drain"],
+                ["op", "rename", ["R", "a"], ["R", "b"]], ["drain"],
+                ["op", "touch", ["R", "b", "R", "b2", "h"]], ["op", "rename", ["R", "b", "R", "b2"], ["R", "b", "R", "a"]], ["drain"]]
+
+
 def run(ctx) -> Result:
     res = Result()
     res.rule = ("histories of 4-10 operations (one at a time and bursts; creates, renames incl. directory renames with "
@@ -210,6 +217,11 @@ def run(ctx) -> Result:
                 "events; distinct by (history, config)")
     rng = ctx.rng("c19")
     batch = []
+    # names that repeat the watched root's own name and the renamed directory's new name deeper in the tree: whatever
+    # rewrites a path prefix must rewrite it once, at the front - for every spelling of the root (a short relative root
+    # makes the destination path text recur inside the tree)
+    for idx, (kind, spelling) in enumerate((k, sp) for k in KINDS for sp in SPELL):
+        one(ctx, res, SELF_SIMILAR, True, bool(idx % 2), kind, spelling, batch)
     n = 90 if not ctx.thorough else 1500
     for i in range(n):
         kind = KINDS[i % 3]
